@@ -73,6 +73,8 @@ def spec_strategy(min_nodes=4, max_nodes=14, allow_seed=True, allow_groups=False
                 name = f"x{i}"
             d = {"kind": kind, "name": name, "inputs": ins, "coef": [draw(st.integers(0, 9))] + [draw(st.integers(1, 3)) for _ in ins],
                  "shape": shape, "value": draw(st.integers(0, 30)), "group": None, "custom": kind in ("wvar", "wdvar") and draw(st.integers(0, 2)) == 0}
+            if kind in WITH_DIST and draw(st.integers(0, 2)) == 0:
+                d["tdist"] = True        # lsl.TransientDist: the log-prob is not cached but evaluated on every read
             if allow_own_key and kind == "scalc" and draw(st.booleans()):
                 d["own_key"] = True      # the seeded node brings its own `seed` input (the model then injects none)
             if allow_groups and draw(st.integers(0, 4)) == 0:
@@ -167,12 +169,15 @@ class Built:
 
     def _dist(self, i, loc):
         """Normal(loc, 2.0) with positional, keyword or mixed distribution inputs (varies with the declaration index)"""
-        cls = self._counted(("d", i), tfd.Normal)
+        if self.decls[i].get("tdist"):
+            cls, mk = tfd.Normal, lsl.TransientDist        # (not counted: a transient node is evaluated on every read)
+        else:
+            cls, mk = self._counted(("d", i), tfd.Normal), lsl.Dist
         if i % 3 == 0:
-            return lsl.Dist(cls, loc, 2.0)
+            return mk(cls, loc, 2.0)
         if i % 3 == 1:
-            return lsl.Dist(cls, loc, scale=2.0)
-        return lsl.Dist(cls, loc=loc, scale=2.0)
+            return mk(cls, loc, scale=2.0)
+        return mk(cls, loc=loc, scale=2.0)
 
     def _make(self, i, d):
         k = d["kind"]
@@ -253,6 +258,8 @@ class Built:
 
     def ancestors(self, i):
         """declaration indices of assignable sources that node i's cached value depends on (+ 'seed:i' for seeded calcs)."""
+        if self.decls[i]["kind"] == "pitvar":
+            return self.pit_ancestors(i)       # (also when the PIT variable is the root of the query, e.g. as `loc` of another distribution)
         seen, out, stack = set(), set(), [r for r, _ in self.decls[i]["inputs"]]
         if self.decls[i]["kind"] == "scalc":
             out.add(f"seed:{i}")
